@@ -189,6 +189,60 @@ func c08Cases() []c08Case {
 	})
 	ibtpMut("to-remote-hub-unregistered", func(ib *pb.IBTP) { ib.To = "9999:c:s" })
 	ibtpMut("from-remote-hub-garbage-extra", func(ib *pb.IBTP) { ib.From = fix.HubID("c", "s"); ib.Extra = []byte("zz") })
+	// plausible governance calls with ONE argument replaced from a string menu (the other
+	// arguments pass the contract's earlier checks, so the mutated one is really used)
+	argMenu := append([]string{"0x1234", "0x" + strings.Repeat("ab", 21), "0x" + strings.Repeat("0", 40), "0xZZ", "1356:chainA:0xB2dD6977169c5067d3729E3deB9a82c3e7502BF1", fix.ChainA}, c08Strings...)
+	type gcall struct {
+		name     string
+		key      crypto.PrivateKey
+		contract constant.BoltContractAddress
+		method   string
+		args     func() []*pb.Arg
+	}
+	gcalls := []gcall{
+		{"RegisterAppchain", fix.KC, constant.AppchainMgrContractAddr, "RegisterAppchain", func() []*pb.Arg {
+			return []*pb.Arg{pb.String(fix.ChainC), pb.String("name-c"), pb.Bytes(nil), pb.String("ETH"), pb.Bytes(nil), pb.String("broker"), pb.String("desc"),
+				pb.String("0x00000000000000000000000000000000000000a2"), pb.String("url"), pb.String(fix.Addr(fix.KC).String()), pb.String("reason")}
+		}},
+		{"RegisterService", fix.KA, constant.ServiceMgrContractAddr, "RegisterService", func() []*pb.Arg {
+			return []*pb.Arg{pb.String(fix.ChainA), pb.String("0xB2dD6977169c5067d3729E3deB9a82c3e7502BF8"), pb.String("svc-new"), pb.String("CallContract"), pb.String("intro"), pb.Uint64(1), pb.String(""), pb.String("details"), pb.String("reason")}
+		}},
+		{"RegisterRule", fix.KA, constant.RuleManagerContractAddr, "RegisterRule", func() []*pb.Arg {
+			return []*pb.Arg{pb.String(fix.ChainA), pb.String("0x00000000000000000000000000000000000000a1"), pb.String("url")}
+		}},
+		{"UpdateMasterRule", fix.KA, constant.RuleManagerContractAddr, "UpdateMasterRule", func() []*pb.Arg {
+			return []*pb.Arg{pb.String(fix.ChainA), pb.String("0x00000000000000000000000000000000000000a2"), pb.String("reason")}
+		}},
+		{"RegisterRole", fix.AdminKeys[1], constant.RoleContractAddr, "RegisterRole", func() []*pb.Arg {
+			return []*pb.Arg{pb.String(fix.Addr(fix.Key("c08-new-admin")).String()), pb.String("governanceAdmin"), pb.String(""), pb.String("reason")}
+		}},
+		{"UpdateAppchain", fix.KA, constant.AppchainMgrContractAddr, "UpdateAppchain", func() []*pb.Arg {
+			return []*pb.Arg{pb.String(fix.ChainA), pb.String("new-name"), pb.String("desc"), pb.Bytes(nil), pb.String(fix.Addr(fix.KA).String()), pb.String("reason")}
+		}},
+		{"Vote", fix.AdminKeys[1], constant.GovernanceContractAddr, "Vote", func() []*pb.Arg {
+			return []*pb.Arg{pb.String(fix.Addr(fix.KA).String() + "-0"), pb.String("approve"), pb.String("reason")}
+		}},
+		{"RegisterNode", fix.AdminKeys[1], constant.NodeManagerContractAddr, "RegisterNode", func() []*pb.Arg {
+			return []*pb.Arg{pb.String(fix.Addr(fix.Key("c08-node")).String()), pb.String("nvpNode"), pb.String(""), pb.Uint64(0), pb.String("nvp-x"), pb.String(fix.ChainA), pb.String("reason")}
+		}},
+	}
+	for _, g := range gcalls {
+		g := g
+		n := len(g.args())
+		for ai := 0; ai < n; ai++ {
+			if g.args()[ai].Type != pb.Arg_String {
+				continue
+			}
+			for mi := range argMenu {
+				ai, mi := ai, mi
+				add(fmt.Sprintf("gov/%s/arg%d-menu%d", g.name, ai, mi), func(w *fix.World) pb.Transaction {
+					args := g.args()
+					args[ai] = pb.String(argMenu[mi])
+					return w.InvokeTx(g.key, g.contract, g.method, args...)
+				})
+			}
+		}
+	}
 	// every method of the dispatch surface: arg vectors of length 0, n-1, n, n+1
 	for mi, sm := range c17Methods() {
 		mi, sm := mi, sm
@@ -349,8 +403,8 @@ func init() {
 	Registry["C08"] = func(c *mc.Ctx) {
 		c.RunSharded("c08")
 		c.Set("distinct_nontrivial", c.Get("blocks_executed"))
-		c.Set("rule", "for one well-formed transaction of each kind (transfer, BVM vote, BVM service registration, IBTP request, IBTP receipt, XVM deploy): every payload truncation length, 13 field replacements, garbage/empty signature, 24 TransactionData (type, vm type) pairs; 60 IBTP field mutations (service ids with 0-5 colons / empty / 64 KiB / non-UTF-8, index and timeout extremes, every type value incl. unknown, hub-service destination, malformed groups, garbage payload/extra); and for each of the 572 dispatchable methods argument vectors of length 0, n-1, n, n+1 from 4 domains (plausible, extreme, wrong type, unparsable); each at block position first/last beside two valid transactions, followed by two more blocks (reaching an open request's timeout height); quick tier runs a third of the argument-vector cases")
-		c.Assume("a worker process death or a missing 'done' is the observation for crash/hang; cases that kill a worker are re-run alone 3x")
+		c.Set("rule", "for one well-formed transaction of each kind (transfer, BVM vote, BVM service registration, IBTP request, IBTP receipt, XVM deploy): every payload truncation length, 13 field replacements, garbage/empty signature, 24 TransactionData (type, vm type) pairs; 60 IBTP field mutations (service ids with 0-5 colons / empty / 64 KiB / non-UTF-8, index and timeout extremes, every type value incl. unknown, hub-service destination, malformed groups, garbage payload/extra); 8 plausible governance calls with each string argument replaced from a 16-string menu (short/long/odd hex, ids with 0-5 colons, empty, 64 KiB, non-UTF-8); and for each of the 572 dispatchable methods argument vectors of length 0, n-1, n, n+1 from 4 domains (plausible, extreme, wrong type, unparsable); each at block position first/last beside two valid transactions, followed by two more blocks (reaching an open request's timeout height); quick tier runs a third of the argument-vector cases")
+		c.Assume("a worker process death is the observation for a crash, no progress for 60 s (cases take < 1 s) the observation for a wedge; cases that kill a worker are re-run alone 3x")
 		fix.Cleanup()
 	}
 }
